@@ -198,7 +198,7 @@ def make_model(rng, nr, force=None, config='dict-full'):
     if special != 'none' and d >= 2:
         j = rng.randrange(1, d)
         if special == 'const':
-            cols[j] = np.full(n, rng.choice([0.0, 3.0, -2.5]))
+            cols[j] = np.full(n, rng.choice([0.0, 3.0, -2.5, 250.0, 1e4, -1e-3]))
             fams[j] = 'gaussian'
         elif special == 'copy':
             cols[j] = cols[0] * 2.0 + 1.0
@@ -978,6 +978,130 @@ def history_oracle(ctx, rng, nr, count, deep):
     return checks
 
 
+def constant_oracle(ctx, models, rng, nr, deep):
+    """A constant training column has a degenerate marginal: its CDF is EXACTLY the step function at the constant.  So the
+    joint CDF at a point whose coordinate lies below the constant - by however little - is ~0, and at / above it it is
+    the CDF of the other coordinates.  Reference: normal scores with the exact step for the constant column, the fitted
+    marginals for the others, MVN CDF with the stored correlation (1e-3)."""
+    from copulas.utils import EPSILON
+    checks = 0
+    cands = [m for m in models if any(f.endswith('*const') for f in m.fams)]
+    if not cands:
+        cands = [make_model(rng, nr, 'const', 'dict-full')]
+    for m in cands[:(6 if deep else 2)]:
+        j = [i for i, f in enumerate(m.fams) if f.endswith('*const')][0]
+        c = float(m.train[0, j])
+        if not np.all(m.train[:, j] == c):
+            continue
+        mag = max(abs(c), 1.0)
+        xs = [c, c * (1 + 1e-6), c * (1 - 1e-6), c + 1e-9, c - 1e-9, np.nextafter(c, np.inf), np.nextafter(c, -np.inf),
+              c + 1e-5 * mag, c - 1e-5 * mag, c - 1e-12 * mag, c + 1.0, c - 1.0]
+        rows = np.empty((len(xs), m.d))
+        for i, x in enumerate(xs):       # the other coordinates well inside / above the bulk, so that their joint CDF is not tiny
+            rows[i] = m.mu + m.sd * np.array([rng.uniform(0.5, 3.0) for _ in range(m.d)])
+            rows[i, j] = x
+        step = (rows[:, j] >= c).astype(float)
+        Z = []
+        for name, u in zip(m.model.columns, m.model.univariates):
+            k = m.labels.index(name)
+            F = step if k == j else np.asarray(u.cdf(np.array(rows[:, k])), dtype=float)
+            Z.append(stats.norm.ppf(np.clip(F, EPSILON, 1 - EPSILON)))
+        Z = np.column_stack(Z)
+        ref = call(lambda: stats.multivariate_normal.cdf(Z, cov=m.corr, allow_singular=True))
+        forms = [('frame', pd.DataFrame(rows, columns=m.labels)), ('arr2', rows.copy())]
+        for form, X in forms:
+            r = call(lambda: m.model.cumulative_distribution(X))
+            checks += 1
+            ctx.count('constant-column.cdf-queries', len(xs))
+            if ref[0] != 'ok':
+                continue
+            bad = r[0] != 'ok' or r[1].shape != ref[1].shape or not np.all(np.abs(r[1] - ref[1]) <= EPS_CDF)
+            ctx.count('constant-column.discriminating', int(np.sum((ref[1] > 0.01) | (step == 0)) if ref[0] == 'ok' else 0))
+            if bad:
+                i = int(np.argmax(np.abs(r[1] - ref[1]))) if r[0] == 'ok' and r[1].shape == ref[1].shape else 0
+                ctx.fail_input('cumulative_distribution',
+                               dict(inp_of(m, form, X, rows[i:i + 1]), constant_column=tok(m.labels[j]), constant=c,
+                                    query_value=float(rows[i, j]), query_minus_constant=float(rows[i, j] - c)),
+                               {'cdf': r[1] if r[0] != 'ok' else float(r[1][i]), 'reference (exact step marginal)': float(ref[1][i]),
+                                'all cdf': r[1], 'all reference': ref[1], 'query values of the constant column': xs},
+                               'the marginal CDF of a constant column is the step function at the constant, exactly: the joint CDF '
+                               'is ~0 for a coordinate below the constant (by any amount) and the CDF of the other coordinates otherwise',
+                               'cumulative_distribution:constant-column-not-a-step')
+        # the scores themselves: +-Phi^-1(1-eps) exactly by the side of the constant
+        zr = call(lambda: m.model._transform_to_normal(forms[0][1])[:, m.cols.index(m.labels[j])])
+        want = stats.norm.ppf(np.clip(step, EPSILON, 1 - EPSILON))
+        checks += 1
+        if zr[0] != 'ok' or not same_bits(zr[1], want):
+            ctx.fail_input('cumulative_distribution', dict(inp_of(m, 'frame', forms[0][1], rows), constant_column=tok(m.labels[j]), constant=c),
+                           {'scores of the constant column': zr[1], 'step scores': want, 'query values': xs},
+                           'the normal score of a constant column is Phi^-1(clip(step(x - c)))',
+                           'cumulative_distribution:constant-column-not-a-step')
+    return checks
+
+
+def long_batch_oracle(ctx, models, rng, nr, deep):
+    """Batches of any size: a long batch evaluated at once equals the same rows evaluated in pieces of 61 rows, and the
+    MVN of the independently computed scores (pdf / log pdf: n in {4096, 4097, 5000, 8193}; cdf: n <= 300)."""
+    checks = 0
+    pool = sorted(models, key=lambda m: (m.kde, 'auto' in ' '.join(m.fams), m.d))
+    chosen = pool[:1] + ([pool[-1]] if len(pool) > 1 else []) + (rng.sample(pool, min(3, len(pool))) if deep else [])
+    sizes = [4096, 4097, 5000, 8193]
+    for mi, m in enumerate(chosen):
+        logtol = 1e-8 * max(1.0, m.cond)
+        for n in (sizes if (deep or mi == 0) else rng.sample(sizes[1:], 2)):
+            idx = nr.randint(len(m.train), size=n)
+            rows = m.train[idx] + 0.3 * m.sd * nr.normal(size=(n, m.d))
+            far = nr.rand(n) < 0.05
+            rows[far] = m.mu + m.sd * 10 ** nr.uniform(1, 6, size=(int(far.sum()), m.d)) * nr.choice([-1, 1], size=(int(far.sum()), m.d))
+            X = pd.DataFrame(rows, columns=m.labels) if rng.random() < 0.5 else rows
+            form = 'frame' if isinstance(X, pd.DataFrame) else 'arr2'
+            ctx.count(f'long-batch.n={n}')
+            for ep, cls_ in (('probability_density', 'probability_density'), ('log_probability_density', 'log_probability_density')):
+                whole = call(lambda: getattr(m.model, ep)(X))
+                parts = [call(lambda a=a: getattr(m.model, ep)(X[a:a + 61] if form == 'arr2' else X.iloc[a:a + 61])) for a in range(0, n, 61)]
+                checks += 1
+                if whole[0] != 'ok' or whole[1].shape != (n,) or any(p[0] != 'ok' for p in parts):
+                    ctx.fail_input(ep, dict(inp_of(m, form, pd.DataFrame(rows[:2], columns=m.labels), rows[:2]), n=n), whole[1] if whole[0] != 'ok' else whole[1].shape,
+                                   'one value per row for a batch of any size', f'{cls_}:row-dependent[long batch]')
+                    continue
+                pieces = np.concatenate([p[1] for p in parts])
+                with np.errstate(all='ignore'):
+                    la, lb = (np.log(whole[1]), np.log(pieces)) if ep == 'probability_density' else (whole[1], pieces)
+                    okv = (whole[1] == pieces) | (np.abs(la - lb) <= logtol) | ((la < -660) & (lb < -660))
+                if not np.all(okv):
+                    i = int(np.argmin(okv))
+                    ctx.fail_input(ep, dict(inp_of(m, form, pd.DataFrame(rows[i:i + 1], columns=m.labels), rows[i:i + 1]), n=n, row_index=i,
+                                            rows_generator={'stream': 'long', 'first_bad_row': vc.jsonable(rows[i])}),
+                                   {'in the batch of n rows': float(whole[1][i]), 'in its piece of 61 rows': float(pieces[i]),
+                                    'rows differing': int(np.sum(~okv)), 'first differing index': i},
+                                   'the result for a row depends only on that row: a long batch equals its pieces',
+                                   f'{cls_}:row-dependent[long batch]')
+            with np.errstate(all='ignore'):
+                ref = np.atleast_1d(stats.multivariate_normal.pdf(indep_scores(m, rows), cov=m.corr, allow_singular=True))
+            p = call(lambda: m.model.probability_density(X))
+            checks += 1
+            if p[0] == 'ok' and p[1].shape == ref.shape and not same_bits(p[1], ref):
+                ctx.fail_input('probability_density', dict(inp_of(m, form, pd.DataFrame(rows[:1], columns=m.labels), rows[:1]), n=n),
+                               {'diff': first_diff(p[1], ref)}, 'probability_density(X) = MVN(0, stored correlation).pdf(normal scores of X)',
+                               'probability_density:not-mvn-of-scores')
+    # cdf: n <= 300, cheapest model
+    m = min(models, key=lambda m: (m.singular, m.d))
+    n = 300 if deep else 150
+    rows = m.train[nr.randint(len(m.train), size=n)] + 0.3 * m.sd * nr.normal(size=(n, m.d))
+    X = pd.DataFrame(rows, columns=m.labels)
+    whole = call(lambda: m.model.cumulative_distribution(X))
+    parts = [call(lambda a=a: m.model.cumulative_distribution(X.iloc[a:a + 61])) for a in range(0, n, 61)]
+    checks += 1
+    ctx.count(f'long-batch.cdf.n={n}')
+    if whole[0] != 'ok' or any(p[0] != 'ok' for p in parts) or whole[1].shape != (n,) or \
+            not np.all(np.abs(whole[1] - np.concatenate([p[1] for p in parts])) <= EPS_CDF):
+        ctx.fail_input('cumulative_distribution', dict(inp_of(m, 'frame', X.iloc[:2], rows[:2]), n=n),
+                       {'whole': whole[1][:6] if whole[0] == 'ok' else whole[1]},
+                       'the CDF of a row depends only on that row (1e-3): a long batch equals its pieces',
+                       'cumulative_distribution:row-dependent[long batch]')
+    return checks
+
+
 def refusal_oracle(ctx, rng, nr, deep):
     """An UNFITTED model must refuse every observation entry point with exactly what check_fit() raises (same exception
     type) - never another exception type, never a value - for every constructor form and every query container;
@@ -1074,6 +1198,8 @@ def search(ctx, deep):
     checks = oracles(ctx, models, rng, nr, nbatch=6 if deep else 1, deep=deep)
     hchecks = history_oracle(ctx, ctx.rng('history'), ctx.nprng('history'), 16 if deep else 4, deep)
     rchecks = refusal_oracle(ctx, ctx.rng('refusal'), ctx.nprng('refusal'), deep)
+    rchecks += constant_oracle(ctx, models, ctx.rng('constant'), ctx.nprng('constant'), deep)
+    rchecks += long_batch_oracle(ctx, models, ctx.rng('long'), ctx.nprng('long'), deep)
     ctx.support = {'oracle_checks': checks, 'history_checks': hchecks, 'refusal_checks': rchecks, 'models': len(models),
                    'failures': len(ctx.failing) - before, 'deep': deep}
 
